@@ -23,14 +23,14 @@ def cases_for(pid, seed):
     rb = lambda n: ''.join('%02x' % rng.getrandbits(8) for _ in range(n))
     if pid == 'C01':
         cs = [{'kind': 'multiply', 'a': hx(k), 'b': hx(j), 'c': hx(l)} for k in scalar_vals(rng) for j, l in ((1, 1), (5, 7), (0, 3), (N - 1, 9))]
-        return cs + [{'kind': 'multiply-nil'}] + [{'kind': 'hidden-scalar', 'n': m} for m in range(14)]
+        return cs + [{'kind': 'multiply-nil'}] + [{'kind': 'hidden-scalar', 'n': m} for m in range(15)]
     if pid == 'C02':
         from props import C02
         return C02.fold_boundary_scalings() + [{'kind': 'el-battery', 'op': 'group', 'n': seed}, {'kind': 'identity-producers'}]
     if pid == 'C05':
         return [{'kind': 'el-battery', 'op': 'equal', 'n': seed}, {'kind': 'identity-producers'}]
     if pid == 'C04':
-        return [{'kind': 'el-battery', 'op': 'encode', 'n': seed}] + [{'kind': 'hidden-element', 'n': m} for m in range(10)]
+        return [{'kind': 'el-battery', 'op': 'encode', 'n': seed}] + [{'kind': 'hidden-element', 'n': m} for m in range(11)]
     if pid == 'C03':
         from props import C03
         return C03.adversarial_cases(seed)
@@ -47,7 +47,7 @@ def cases_for(pid, seed):
     if pid == 'C14':
         Ri = pow(R, -1, N)
         vs = scalar_vals(rng) + [sp * Ri % N for sp in (1, 2**64, 2**128, 2**191)]
-        return [{'kind': 'bits', 'a': hx(v % N)} for v in vs] + [{'kind': 'hidden-scalar', 'n': m} for m in range(14)]
+        return [{'kind': 'bits', 'a': hx(v % N)} for v in vs] + [{'kind': 'hidden-scalar', 'n': m} for m in range(15)]
     if pid in ('C08', 'C09'):
         ops = ('RO', 'NU') if pid == 'C08' else ('S',)
         combos = [(0, 1), (3, 16), (1, 2), (64, 255), (64, 256), (5, 300), (128, 17), (1, 65536)]
@@ -67,7 +67,7 @@ def cases_for(pid, seed):
                 cs.append({'kind': 'h2-sequence', 'op': op, 'a': rb(5), 'b': rb(d1), 'c': rb(d2)})
         return cs + [{'kind': 'h2-panic', 'a': 'aa', 'b': '', 'n': 0}, {'kind': 'h2-panic', 'a': 'aa', 'b': '', 'n': 1}]
     if pid == 'C10':
-        return [{'kind': 'history', 'n': seed + s} for s in range(12)] + [{'kind': 'mem'}, {'kind': 'identity-producers'}] + [{'kind': 'hidden-scalar', 'n': m} for m in range(14)] + [{'kind': 'hidden-element', 'n': m} for m in range(10)]
+        return [{'kind': 'history', 'n': seed + s} for s in range(12)] + [{'kind': 'mem'}, {'kind': 'identity-producers'}] + [{'kind': 'hidden-scalar', 'n': m} for m in range(15)] + [{'kind': 'hidden-element', 'n': m} for m in range(11)]
     if pid == 'C11':
         us = [0, 1, 2, P - 1, 5, 7, 11, 2**255 % P, (P - 1) // 2]
         inv11 = pow(11, -1, P)
